@@ -197,10 +197,12 @@ def mean_psd_cases(ctx, n_cases):
             t += list(tt); st.append(tt[0]); en.append(tt[-1]); cur = tt[-1] + rng.randint(3, 30)
         tq = np.array(t)
         frame = (c % 3 == 0)
-        vals = npr.randn(len(tq), 2) if frame else npr.randn(len(tq))
+        size_q = rng.choice([4, 6, 8, 16])                    # interval size in samples (dyadic in seconds)
+        # number of columns: 2, or exactly the number of samples per segment / the segment length (shapes where a wrong axis broadcasts silently)
+        ncol = [2, size_q + 1, size_q, 3][(c // 3) % 4]
+        vals = npr.randn(len(tq), ncol) if frame else npr.randn(len(tq))
         ep = nap.IntervalSet(start=np.array(st) / fs, end=np.array(en) / fs)
         sig = nap.TsdFrame(tq / fs, vals, time_support=ep) if frame else nap.Tsd(tq / fs, vals, time_support=ep)
-        size_q = rng.choice([4, 6, 8, 16])                    # interval size in samples (dyadic in seconds)
         ov_num = rng.choice([0, 1, 2, 3])                      # overlap = ov_num / 4
         overlap = ov_num / 4.0
         full = (c % 2 == 0)
